@@ -48,6 +48,23 @@ def cases(tier, seed):
     return [{'hist': i} for i in range(n)]
 
 
+def rows_of(dump):
+    """{uid: {table: row(s)}} including names, groups and application specific information resolved to values."""
+    out = {}
+    for t in ('managed_objects', 'crypto_objects', 'keys'):
+        for r in dump.get(t, []):
+            out.setdefault(r[0], {})[t] = r
+    for r in dump.get('managed_object_names', []):
+        out.setdefault(r[1], {}).setdefault('names', []).append(r[2:])
+    groups = {r[0]: r[1] for r in dump.get('object_groups', [])}
+    for r in dump.get('object_group_map', []):
+        out.setdefault(r[0], {}).setdefault('groups', []).append(groups.get(r[1]))
+    asi = {r[0]: r[1:] for r in dump.get('app_specific_info', [])}
+    for r in dump.get('app_specific_info_map', []):
+        out.setdefault(r[0], {}).setdefault('asi', []).append(asi.get(r[1]))
+    return {k: v for k, v in out.items() if 'managed_objects' in v}
+
+
 def rand_section(rng, complete=False):
     sec = {}
     for t in ALL_TYPES:
@@ -172,7 +189,7 @@ def run_case(ctx, case):
                     owner = rng.choice(USERS)
                     tag = '%s-%s-%s-%04x' % (owner, kind, pname, rng.getrandbits(16))
                     o = store.register(srv, kind, owner, rng, policy=pname,
-                                       names=['name-' + tag], groups=['group-' + tag],
+                                       names=['name-' + tag], groups=['group-' + tag, rng.choice(('blue', 'green'))],
                                        asi=[('asins-' + tag, 'asidata-' + tag)],
                                        state=rng.choice(('pre', 'active', 'active')),
                                        real_keys=False)
@@ -191,16 +208,47 @@ def run_case(ctx, case):
             policy_ops = model.POLICY_OP
             for sweep in range(3):
                 # a little history by several clients
-                for _ in range(10):
+                for _ in range(24):
                     v = rng.choice(rig.VERSIONS)
                     idt = (rng.choice(USERS), rng.choice(GROUPSETS))
                     opname, op = G.random_op(rng, v, objs, rng.choice(
                         ['create', 'register', 'locate', 'get', 'get_attributes', 'modify_attribute',
                          'activate', 'revoke', 'derive_key', 'delete_attribute']))
+                    mine = [o for o in objs if o.owner == idt[0]]
+                    if mine and rng.random() < 0.5 and v < (2, 0):
+                        # an owner changing an attribute of its own object (values such as the group 'blue' are shared
+                        # with objects of other owners)
+                        o_ = rng.choice(mine)
+                        idt = (idt[0], None)
+                        which = rng.choice(('group', 'group', 'name', 'asi'))
+                        opname = 'modify_attribute'
+                        if which == 'group':
+                            op = op_modify_attribute_1x(o_.uid, rig.attr(A.OBJECT_GROUP, 'regrouped-%d' % rng.randrange(10 ** 6), 1))
+                        elif which == 'name':
+                            op = op_modify_attribute_1x(o_.uid, rig.attr(A.NAME, name_value('renamed-%d' % rng.randrange(10 ** 6)), 0))
+                        else:
+                            op = op_modify_attribute_1x(o_.uid, rig.attr(A.APPLICATION_SPECIFIC_INFORMATION, {
+                                'application_namespace': 'asins-new', 'application_data': 'x%d' % rng.randrange(10 ** 6)}, 0))
+                    snap0 = srv.dump()
                     try:
                         r = srv.send([op], idt, v)
                     except Exception:
                         continue
+                    snap1 = srv.dump()
+                    if snap0 != snap1:
+                        # whatever changed must belong to an object the requester may operate on
+                        ctx.count('history_steps_with_changes')
+                        by0, by1 = rows_of(snap0), rows_of(snap1)
+                        polop = {'modify_attribute': O.MODIFY_ATTRIBUTE, 'delete_attribute': O.DELETE_ATTRIBUTE,
+                                 'activate': O.ACTIVATE, 'revoke': O.REVOKE}.get(opname)
+                        for uid_, rows in by0.items():
+                            if uid_ in by1 and by1[uid_] != rows and polop is not None:
+                                mo = rows['managed_objects']
+                                otype = E.ObjectType(mo[1])
+                                if not model.granted(pols, mo[5], idt, mo[8], otype, polop):
+                                    ctx.violation('%s|%s|changed-bystander' % (opname, otype.name.lower()),
+                                                  '%s by %r changed object %s (owner %s, policy %s) for which the requester has no grant'
+                                                  % (opname, idt, uid_, mo[8], mo[5]), {'before': str(rows)[:500], 'after': str(by1[uid_])[:500]})
                     if r.ok() and opname in ('create', 'register', 'derive_key'):
                         u = r.uid()
                         if u:
